@@ -606,8 +606,11 @@ def r5_helpers(rule, root=None):
                 rule.ok("%s: %s.%s(..)" % (name, T.show(want[0]), want[1]))
             else:
                 rule.bad("%s|call|%s" % (name, want[1]), "%s must call %s.%s(%s)" % (name, T.show(want[0]), want[1], ", ".join(T.show(x) for x in want[2])), A.where(fn))
-    # get_register: spare path pokes; evict path spills the victim
-    fn = afn("get_register", root)
+    # get_register: spare path pokes; evict path spills the victim (read with same-file helpers expanded
+    # in place: an extracted eviction helper is the same path)
+    fn0 = afn("get_register", root)
+    fn = dict(fn0)
+    fn["body"] = A.inline_helpers(fn0, keep=("get_spare_register", "oldest_reg", "get_memory"))
     assigns, calls = _assign_set(fn)
     want_assign = [
         (idx("allocations", idx("registers", ("var", "reg"))), ("m", "get_memory", ("var", "self"))),
